@@ -450,7 +450,7 @@ template<class C, class F> static void walk(C& c, F f)
   for(typename C::Iterator i = c.begin(), end = c.end(); i != end; ++i, ++n)
   {
     putElem(first);
-    f(i);
+    f(c, i);
     if(n > 100000) { printf(" ...cycle"); break; }
   }
   if(first) fputc('-', stdout);
@@ -463,13 +463,14 @@ static void showVar(int k, int v)
   {
   case KA: { TA& a = V<TA>(k, v); printf("%lu/", (unsigned long)a.capacity()); bool first = true;
              for(usize i = 0; i < a.size(); ++i) { putElem(first); printf("%d", ((Tracked*)a)[i].read()); } if(first) fputc('-', stdout); } break;
-  case KL: walk(V<TL>(k, v), [](TL::Iterator& i) { printf("%d", (*i).read()); if(modeC05) fputc(flagOf(regL, i, &*i), stdout); }); break;
-  case KM: walk(V<TM>(k, v), [](TM::Iterator& i) { printf("%d:%d", i.key().read(), (*i).read()); if(modeC05) fputc(both(flagOf(regM, i, &i.key()), flagOf(regM, i, &*i)), stdout); }); break;
-  case KU: walk(V<TU>(k, v), [](TU::Iterator& i) { printf("%d:%d", i.key().read(), (*i).read()); if(modeC05) fputc(both(flagOf(regU, i, &i.key()), flagOf(regU, i, &*i)), stdout); }); break;
-  case KH: walk(V<TH>(k, v), [](TH::Iterator& i) { printf("%d:%d", i.key().read(), (*i).read()); if(modeC05) fputc(both(flagOf(regH, i, &i.key()), flagOf(regH, i, &*i)), stdout); }); break;
-  case KS: walk(V<TS>(k, v), [](TS::Iterator& i) { printf("%d", (*i).read()); if(modeC05) fputc(flagOf(regS, i, &*i), stdout); }); break;
-  case KP: walk(V<TP>(k, v), [](TP::Iterator& i) { printf("%d", (*i).read()); if(modeC05) fputc(flagOf(regP, i, &*i), stdout); }); break;
-  case KQ: walk(V<TQ>(k, v), [](TQ::Iterator& i) { printf("%d:%d", i.key().read(), (*i).read()); if(modeC05) fputc(both(flagOf(regQ, i, &i.key()), flagOf(regQ, i, &*i)), stdout); }); break;
+  // C05: the element must also be what find(key) designates (unique-key containers)
+  case KL: walk(V<TL>(k, v), [](TL&, TL::Iterator& i) { printf("%d", (*i).read()); if(modeC05) fputc(flagOf(regL, i, &*i), stdout); }); break;
+  case KM: walk(V<TM>(k, v), [](TM& c, TM::Iterator& i) { printf("%d:%d", i.key().read(), (*i).read()); if(modeC05) fputc(c.find(i.key()) != i ? 'm' : both(flagOf(regM, i, &i.key()), flagOf(regM, i, &*i)), stdout); }); break;
+  case KU: walk(V<TU>(k, v), [](TU&, TU::Iterator& i) { printf("%d:%d", i.key().read(), (*i).read()); if(modeC05) fputc(both(flagOf(regU, i, &i.key()), flagOf(regU, i, &*i)), stdout); }); break;
+  case KH: walk(V<TH>(k, v), [](TH& c, TH::Iterator& i) { printf("%d:%d", i.key().read(), (*i).read()); if(modeC05) fputc(c.find(i.key()) != i ? 'm' : both(flagOf(regH, i, &i.key()), flagOf(regH, i, &*i)), stdout); }); break;
+  case KS: walk(V<TS>(k, v), [](TS& c, TS::Iterator& i) { printf("%d", (*i).read()); if(modeC05) fputc(c.find(*i) != i ? 'm' : flagOf(regS, i, &*i), stdout); }); break;
+  case KP: walk(V<TP>(k, v), [](TP&, TP::Iterator& i) { printf("%d", (*i).read()); if(modeC05) fputc(flagOf(regP, i, &*i), stdout); }); break;
+  case KQ: walk(V<TQ>(k, v), [](TQ& c, TQ::Iterator& i) { printf("%d:%d", i.key().read(), (*i).read()); if(modeC05) fputc(c.find(i.key()) != i ? 'm' : both(flagOf(regQ, i, &i.key()), flagOf(regQ, i, &*i)), stdout); }); break;
   }
 }
 
